@@ -37,8 +37,18 @@ def r20_1(ctx):
     idx = get_index(ctx.env)
     f = lambda m: idx.func(f"{PP}.{m}")
     fi = f("run_preprocess_steps")
-    calls = [call_name(n.value) for n in fi.node.body if isinstance(n, ast.Expr) and isinstance(n.value, ast.Call)]
+    calls = [call_name(n.value) for n in fi.node.body if isinstance(n, ast.Expr) and isinstance(n.value, ast.Call) and call_name(n.value).startswith("self.")]
     ctx.check("step order", calls == ["self.preprocess_macros", "self.preprocess_shortcode", "self.postprocess_shortcode"], "macros, shortcode, postprocess", str(calls), fn_where(idx, fi))
+    # every path through the driver runs all three steps: no exit before the last step, no step under a condition
+    ps = paths_of(fi.node)
+    steps = ("preprocess_macros", "preprocess_shortcode", "postprocess_shortcode")
+    short = []
+    for p in ps:
+        seen = [call_tail(e.node) for e in p.events if e.kind == "call" and isinstance(e.node, ast.Call) and call_tail(e.node) in steps]
+        if p.outcome != "raise" and seen != list(steps):
+            short.append(f"[{p.guard_text()[:60]}] {p.outcome} after {seen}")
+    ctx.check("every path through run_preprocess_steps regenerates all artefacts", bool(ps) and not short, "each non-raising path calls the three steps (no freshness shortcut: the artefacts depend on more inputs than any one test tracks)",
+              "; ".join(short[:3]) or f"{len(ps)} path(s) ok", fn_where(idx, fi))
     fi = f("cleanup_macros")
     ctx.check("cleanup_macros inputs", getpaths(fi.node) == ["HEXAGON_PP_MACROS_INC", "HEXAGON_PP_MACROS_H", "HEXAGON_PP_MACROS_MMVEC_H"], "macros.inc, macros.h, macros_mmvec.h", str(getpaths(fi.node)), fn_where(idx, fi))
     fi = f("preprocess_macros")
@@ -348,6 +358,61 @@ def r20_6(ctx):
                 for b in stack:
                     b["defs"][b["branch"]].add(m.group(1))
     ctx.check("conditional blocks of the macro sources", n_blocks >= 20, ">= 20 blocks inspected", str(n_blocks), "Resources/Hexagon/Preprocessor/", nontrivial=False)
+
+
+LINE_PROBES = [
+    # (line, kept?, why)
+    ("#define fA(x) x\n", True, "a definition"),
+    ("// note\n", False, "line comment"),
+    ("    // note\n", False, "indented line comment"),
+    ("/* note */\n", False, "block comment on its own line"),
+    ("/*\n", False, "block comment opener"),
+    (" * text of a block comment\n", False, "block comment body"),
+    (" */\n", False, "block comment closer"),
+    ("    /* note */ A = f(A); \\\n", True, "body line of a multi-line macro that begins with a comment and carries code"),
+    ("    /* last line of the macro */\n", True, "final line of a multi-line macro: dropping it splices the next #define into the body"),
+    ("#define fB(x) /* note */ x\n", True, "definition with an inline comment"),
+    ("    foo(x); // note \\\n", True, "body line with a trailing comment"),
+    ("    A = B * C; \\\n", True, "body line"),
+    ("    (A) \\\n", True, "body line"),
+    ("\n", False, "empty line"),
+    # limitations of the reviewed filter (recorded findings): code behind a comment in column 0, continuation starting with `*`
+    ("/* legacy */ #define fC(x) x\n", True, "definition behind a block comment in column 0"),
+    ("    * (B) \\\n", True, "continuation line that begins with a multiplication"),
+]
+
+
+@rule("R20.7", "C20", "line filter of cleanup_macros: with no guarded block open, a line is dropped only when it carries no code (valuation of the per-line loop body on line shapes)", min_instances=14)
+def r20_7(ctx):
+    from sa.absint import Interp
+
+    idx = get_index(ctx.env)
+    fi = idx.func(f"{PP}.cleanup_macros")
+    w = fn_where(idx, fi)
+    loops = [n for n in ast.walk(fi.node) if isinstance(n, ast.For) and "readlines" in U(n.iter)]
+    ctx.need(len(loops) == 1, f"cleanup_macros: per-line loop not found ({len(loops)} candidates)")
+    lp = loops[0]
+    tgt = U(lp.target)
+    # names the loop body reads that are set outside it: the two block flags, the vector-file flag, the result list
+    assigned_in = {U(t) for n in ast.walk(lp) if isinstance(n, ast.Assign) for t in n.targets}
+    appended = {U(n.func.value) for n in ast.walk(lp) if isinstance(n, ast.Call) and isinstance(n.func, ast.Attribute) and n.func.attr == "append"}
+    ctx.need(len(appended) == 1, f"cleanup_macros: result list of the loop not found ({sorted(appended)})")
+    res = appended.pop()
+    flags = sorted(n.id for n in ast.walk(lp) if isinstance(n, ast.Name) and isinstance(n.ctx, ast.Load) and n.id.startswith(("in_", "is_")))
+    one = ast.For(target=lp.target, iter=ast.Name(id="__lines", ctx=ast.Load()), body=lp.body, orelse=[], lineno=lp.lineno, col_offset=lp.col_offset)
+    ast.fix_missing_locations(one)
+    for line, keep, why in LINE_PROBES:
+        def once(i, line=line):
+            env = {"__lines": [line], res: []}
+            for fl in set(flags):
+                env[fl] = False
+            i.block([one], env, None)
+            return env[res]
+
+        outs = Interp(idx).explore(once)
+        got = [o.value if o.kind != "raise" else "RAISE" for o in outs]
+        exp = [line.strip("\n")] if keep else []
+        ctx.check(f"line shape: {why}", got == [exp], "kept" if keep else "dropped", "kept" if got == [[line.strip(chr(10))]] else "dropped" if got == [[]] else str(got)[:80], w)
 
 
 def merged_list_is_private(ctx):
